@@ -21,8 +21,8 @@ CHECKS = {
    text="Exploration. Byte comparison of repeated executions of the real formatter under sampled configurations.",
    note="Trusted: 'well-formed' as in C02; known-finding classes listed in known_findings.txt blind the check to exactly those signatures."),
  "C04": dict(
-   technique="runtime monitoring: crash/abort observation in supervised worker processes (2 MiB stacks like the binary's worker threads), logical step-budget watchdog through hooks in lexer/parser/wrapper loops, CPU-time watchdog with solo confirmation, growth monitor (steps and thread CPU time) on scaling families; exhaustive enumeration of short token sequences",
-   text="Exploration with exhaustive sub-spaces (all sequences up to length 2 quick / 3 thorough over the listed alphabet, length 4 over the opener sub-alphabet). Panic, process death, > 2000*(n+16)^2 logical steps or a confirmed 150 s timeout is a violation.",
+   technique="runtime monitoring: crash/abort observation in supervised worker processes (2 MiB stacks like the binary's worker threads), logical step-budget watchdog through hooks in lexer/parser/wrapper loops, CPU-time watchdog with solo confirmation, growth monitor (steps and thread CPU time) on 25 scaling families incl. long-header statement chains; exhaustive enumeration of short token sequences; AddressSanitizer replay of the quick workload in the thorough tier",
+   text="Exploration with exhaustive sub-spaces (all sequences up to length 2 quick / 3 thorough over the listed alphabet, length 4 over the opener sub-alphabet). Panic, process death, > 2000*(n+16)^2 logical steps or a confirmed 240 s timeout is a violation.",
    note="Trusted: step hooks cover the loops listed in DESIGN.md; loops without a hook are covered only by the CPU-time watchdog. Release profile decides."),
  "C05": dict(
    technique="runtime monitoring: structure oracle over generator-known statement/member/opener/closer tokens located in the output by non-blank ordinal; relative indentation rule checked per block; hook events and generator context give known-finding signatures",
@@ -33,7 +33,7 @@ CHECKS = {
    text="Exploration over well-formed programs x 2-4 re-layouts x configurations.",
    note="Trusted: admissibility of re-layouts is by construction (comment-touching gaps, blank-line runs, verbatim material untouched); gluing rules of the layout are conservative."),
  "C07": dict(
-   technique="runtime monitoring: region oracle - bytes of generator-placed pasfmt off/on regions and asm bodies must reappear unchanged at the place given by the non-blank ordinal; canonical-whitespace oracle outside regions; toggle look-alikes",
+   technique="runtime monitoring: region oracle - bytes of generator-placed pasfmt off/on regions and asm bodies (LF, CRLF and lone-CR line ends) must reappear unchanged at the place given by the non-blank ordinal; canonical-whitespace oracle outside regions; toggle look-alikes",
    text="Exploration over grammar programs with 1-3 regions at arbitrary token boundaries, all spellings, x configurations.",
    note="Trusted: reference toggle recogniser written from the property text; reference scanner for the outside-whitespace check."),
  "C08": dict(
@@ -49,7 +49,7 @@ CHECKS = {
    text="Exploration over well-formed inputs x tab_width x continuation_indents incl. the u8 boundary.",
    note="Inputs with line-spanning tokens are skipped (interior lines are token text); literal re-indentation per configuration is covered by C12."),
  "C11": dict(
-   technique="runtime monitoring: metamorphic relations between executions at two widths chosen from observed line lengths; a rate monitor bounds the known search-heuristic finding",
+   technique="runtime monitoring: metamorphic relations between executions at two widths chosen from observed line lengths; rate monitors bound the four known search-heuristic findings (per-run counts aggregated over all workers)",
    text="Exploration over well-formed inputs x width pairs x other settings.",
    note="Width is measured as the wrapper measures it (UTF-8 bytes, a tab counts one)."),
  "C12": dict(
@@ -61,7 +61,7 @@ CHECKS = {
    text="Exploration with an exhaustive (length, alignment) x delimiter x word-class product in the thorough tier.",
    note="Trusted: reference scanner for the comparison part; construction for the boundary part."),
  "C14": dict(
-   technique="runtime monitoring: invariant walk over the parse result at the quiescent point after parsing (public API), on all generators; parent/end-of-file clauses on well-formed programs; pass-count hook",
+   technique="runtime monitoring: invariant walk over the parse result at the quiescent point after parsing (public API), on all generators and on every sequence up to length 4 (quick) / 6 (thorough) over a 10-lexeme directive/comment alphabet; parent/end-of-file clauses on well-formed programs; pass-count hook",
    text="Exploration.",
    note="Trusted: nothing beyond the public parse result; 'well-formed' as in C02."),
  "C15": dict(
@@ -69,11 +69,11 @@ CHECKS = {
    text="Exploration over all generators x cursor lists x configurations.",
    note="The unchanged-token clause is checked only when the output has the same non-blank characters as the input."),
  "C16": dict(
-   technique="runtime monitoring of the real binary: byte/mtime/inode observation of files around invocations in the three modes and all path forms (also under legacy encodings); offline checker over strace-recorded syscall logs (no write-class syscall in stdout/check mode, ftruncate length == bytes written, no O_TRUNC); reference = stdin->stdout of the same binary",
+   technique="runtime monitoring of the real binary: byte/mtime/inode observation of files around invocations in the three modes and all path forms (also under legacy encodings); offline checker over strace-recorded syscall logs (no write-class syscall in stdout/check mode, ftruncate length == bytes written, no O_TRUNC); reference = stdin->stdout of the same binary; valgrind memcheck on the release binary over the same workload in the thorough tier",
    text="Exploration over contents (result shorter/longer/equal/empty) x modes x path forms x configurations, plus failing files (unreadable as user nobody, undecodable, missing).",
    note="Trusted: the stdin->stdout path of the binary as reference, as the property defines it."),
  "C17": dict(
-   technique="runtime monitoring of the real binary: byte-level oracle BOM + encode(F(decode(bytes))) with the library call as F and an independent codec, x 25 encodings x BOM kinds x file/stdin; malformed inputs must be rejected untouched",
+   technique="runtime monitoring of the real binary: byte-level oracle BOM + encode(F(decode(bytes))) with the library call as F and an independent codec, x 25 encodings x BOM kinds x file/stdin; malformed inputs must be rejected untouched; valgrind memcheck on the release binary over the same workload in the thorough tier",
    text="Exploration.",
    note="Trusted: encoding_rs as codec for legacy encodings; Rust std for UTF-8/UTF-16."),
  "C18": dict(
@@ -81,7 +81,7 @@ CHECKS = {
    text="Exploration (schedule sampling with perturbation, not enumeration).",
    note="Trusted: the single-file run of the same binary as reference."),
  "C19": dict(
-   technique="runtime monitoring of the real binary from nested working directories: a 20-line reference resolver predicts the effective configuration; metamorphic oracle 'however specified => same bytes'; rejection checks on exit status and untouched files",
+   technique="runtime monitoring of the real binary from nested working directories: a 20-line reference resolver predicts the effective configuration; metamorphic oracle 'however specified => same bytes'; rejection checks on exit status and untouched files (unknown keys, ill-typed values, TOML syntax errors, non-UTF-8 files, discovered or named); valgrind memcheck on the release binary in the thorough tier",
    text="Exploration over depths 0-6, several pasfmt.toml, --config-file, -C splits, invalid settings.",
    note="Trusted: the reference resolver written from the property text."),
 }
